@@ -140,6 +140,7 @@ def gen_cfgs(r, tier):
         cases.append((r.choice(grid), r.choice(seqs)))
     # random longer ones
     for _ in range(300 if tier == 'quick' else 6000):
+        common.tick()
         n = r.randint(5, 40)
         lens = [Fraction(r.randint(1, 12), r.choice([1, 1, 2, 3])) for _ in range(n)]
         cfg = (r.randint(1, 5), r.choice(rates + [Fraction(1, 3)]), r.choice([None, Fraction(r.randint(3, 40))]),
